@@ -44,6 +44,7 @@ inductive Ev where
   | bio (who : String) (isRead : Bool)
   | os (who : String) (e : OsEv)
   | dpoll (t : Int) (res : Int) (fds : List (String × Nat × Nat))
+  | dpend (who : String) (n : Nat)
   | rx (who : String) (n : Nat)
   | disc (who : String) (why : List String)
   | fut (who : String) (i : Nat) (res : String)
@@ -93,6 +94,7 @@ def parseEv (w : List String) : Ev :=
     | some t, some res, some fds => .dpoll t res fds
     | _, _, _ => .other w
   | ["rx", who, n] => .rx who (n.toNat?.getD 0)
+  | ["dpend", who, n] => .dpend who (n.toNat?.getD 0)
   | "disc" :: who :: why => .disc who why
   | "fut" :: who :: i :: r :: _ => .fut who (i.toNat?.getD 0) r
   | ["enq", who, n] => .enq who (n.toNat?.getD 0)
@@ -188,6 +190,7 @@ structure Block where
   rx : List Nat := []
   disc : Nat := 0
   dpoll : Option (Int × Int × List (String × Nat × Nat)) := none
+  pend : List (String × Nat) := []   -- `SSL_pending()` of the async TLS endpoints when the step began
 
 def Block.pushBioLen (c : RecCall) (len : Nat) : RecCall :=
   match c.bios.reverse with
@@ -233,6 +236,8 @@ structure EpSt where
   threw : Bool := false
   discSeen : Nat := 0
   recvOp : Bool := false
+  callT : Option Int := none            -- timeout of the synchronous Send/Receive in progress (C07 clauses)
+  spent : Int := 0                      -- virtual ms its timed-out waits have consumed so far
 
 def exnClass : Exn → String
   | .system _ => "system_error"
@@ -406,7 +411,7 @@ def runStep (C : Cfg) (d : DSt) (dname : String) (b : Block) (ret : List String)
   | none =>
     -- Step ended before polling: nothing for the glue model to say (reported by the spec if it threw)
     d
-  | some (_, res, fds) =>
+  | some (tpoll, res, fds) =>
     -- 1. DriverQuery of every registered socket, compared with the events the driver polled with
     let asyncOn := d.eps.filter (fun e => e.kind == "async" ∧ e.driver == dname)
     let d := asyncOn.foldl (fun d ep =>
@@ -424,7 +429,18 @@ def runStep (C : Cfg) (d : DSt) (dname : String) (b : Block) (ret : List String)
         if ep.a.registered then d.noteCorr s!"{ep.name}: model has the socket registered, the driver does not poll it" else d) d
     -- 2. which socket does DoOneSocketTask serve
     let pipeRev := match fds.find? (·.1 == "pipe") with | some (_, _, r) => r | none => 0
-    let served := if res ≤ 0 ∨ pipeRev ≠ 0 then none else fds.find? (fun f => f.1 != "pipe" ∧ f.2.2 ≠ 0)
+    -- `QuerySockets`: the first polled socket whose `DriverQuery` reports received data held already (F8 repair);
+    -- the engine is replayed, not simulated, so its `SSL_pending()` is taken from the observation
+    let received : Option String :=
+      (fds.find? (fun f => f.1 != "pipe" ∧ (d.eps.any fun ep => ep.name == f.1 ∧ ep.tls ∧ ep.a.registered) ∧
+                           (b.pend.any fun p => p.1 == f.1 ∧ p.2 > 0))).map (·.1)
+    let d := if received.isSome ∧ tpoll ≠ 0 then
+        d.noteCorr s!"{dname}: a socket holds received data already, yet the driver waits with timeout {tpoll} instead of 0"
+      else d
+    let served := if pipeRev ≠ 0 then none
+      else fds.find? (fun f => f.1 != "pipe" ∧ ((res > 0 ∧ f.2.2 ≠ 0) ∨ received == some f.1))
+    let served := served.map fun f => if received == some f.1 then (f.1, f.2.1, f.2.2 ||| 1) else f
+    let d := if received.isSome then { d with tags := "query.received" :: d.tags } else d
     match served with
     | none =>
       if b.calls.isEmpty ∧ b.os.isEmpty then { d with tags := "step.idle" :: d.tags }
@@ -466,9 +482,29 @@ def specEv (d : DSt) (e : Ev) : Except String DSt :=
     match d.ep? who with
     | some ep => .ok (d.setEp { ep with lastDoneInit := ans.isDone && init })
     | none => .ok d
-  | .api who op _ =>
+  | .api who op args =>
     match d.ep? who with
-    | some ep => .ok (d.setEp { ep with recvOp := op == "recv" })
+    | some ep =>
+      let T : Option Int := if op == "send" ∨ op == "recv" then (args.head?.bind String.toInt?) else none
+      .ok (d.setEp { ep with recvOp := op == "recv", callT := T, spent := 0 })
+    | none => .ok d
+  | .os who (.poll _ t ready) =>
+    -- C07 for the TLS socket: "negative = unlimited, zero = never blocks, positive = at most that long in total,
+    -- however many waits the handshake / the record layer needs"; under the virtual clock a wait that times out
+    -- consumes exactly its argument, one that finds the descriptor ready consumes nothing
+    match d.ep? who with
+    | some ep =>
+      match ep.callT with
+      | none => .ok d
+      | some T =>
+        if T < 0 then
+          if t ≥ 0 then .error s!"{who}: call with unlimited timeout issued a bounded wait poll({t})" else .ok d
+        else if T = 0 then
+          if t ≠ 0 then .error s!"{who}: call with timeout 0 issued a blocking wait poll({t})" else .ok d
+        else if t < 0 then .error s!"{who}: call with timeout {T} ms issued an unlimited wait"
+        else if ep.spent + t > T then
+          .error s!"{who}: call with timeout {T} ms waits poll({t}) after its earlier waits already consumed {ep.spent} ms: over budget"
+        else .ok (d.setEp { ep with spent := ep.spent + (if ready then 0 else t) })
     | none => .ok d
   | .ret who rest =>
     match d.ep? who, rest with
@@ -477,9 +513,10 @@ def specEv (d : DSt) (e : Ev) : Except String DSt :=
       if ep.recvOp ∧ k > 0 then
         if d.strictInit ∧ ep.tls ∧ ¬ ep.lastDoneInit then .error s!"{who}: Receive delivered {k} bytes although the engine had not finished the handshake / not answered done"
         else if d.plain ≠ "none" then .error s!"{who}: Receive delivered {k} bytes from a peer that does not speak TLS"
-        else .ok (d.setEp { ep with delivered := ep.delivered + k })
-      else .ok d
-    | some ep, "throw" :: _ => .ok (d.setEp { ep with threw := true })
+        else .ok (d.setEp { ep with delivered := ep.delivered + k, callT := none })
+      else .ok (d.setEp { ep with callT := none })
+    | some ep, "throw" :: _ => .ok (d.setEp { ep with threw := true, callT := none })
+    | some ep, _ => .ok (d.setEp { ep with callT := none })
     | _, _ => .ok d
   | .rx who n =>
     match d.ep? who with
@@ -650,6 +687,14 @@ partial def go (C : Cfg) (H : Hooks) (d : DSt) : List String → Verdict
           match owner with
           | some (dn, to, b) =>
             go C H { d with dopen := (dn, to, { b with dpoll := some (t, res, fds) }) :: d.dopen.filter (·.1 != dn) } rest
+          | none => go C H d rest
+        | .dpend who n =>
+          match d.ep? who with
+          | some ep =>
+            match d.dopen.find? (·.1 == ep.driver) with
+            | some (dn, to, b) =>
+              go C H { d with dopen := (dn, to, { b with pend := (who, n) :: b.pend }) :: d.dopen.filter (·.1 != dn) } rest
+            | none => go C H d rest
           | none => go C H d rest
         | .enq who n =>
           match d.ep? who with
